@@ -18,6 +18,7 @@ EXPLANATION = (
     "travels with the request it was enumerated with. Not decided: enumeration of response orders/interleavings as such "
     "(the rules are order-independent); ids are distinct until the 64-bit counter wraps."
     ' (deliver-by-key, completeness) from the point where a response loop has a decoded response every path to the next read consults the pending table (notifies excepted); (index-travels, completeness) what a batch function returns on every path is the vector stored by request index, or an order-preserving buffered/join_all pipeline over the requests.'
+    ' A burst writer (a function that queues frames and writes them itself under the writer lock) is judged in its own right: every MessageBuilder::id in it is the key registered in the same pass, a frame is queued only behind the Ok edge of its registration, and no registration is reachable from a write of the burst.'
 )
 ASSUMPTIONS = ["HashMap insert/remove, mpsc and oneshot channels have their documented semantics", "AtomicU64::fetch_add is atomic"]
 
